@@ -195,3 +195,39 @@ _t5, _b5 = _chr(b"ChrW(", 5, 0)
 OBLIGATIONS.append(mk_template_ob(globals(), "chrw_5digits", _t5, _b5, tier="thorough", timeout=1800,
                                   splits=[f"h1 == {48 + d}" for d in range(10)],
                                   functions=["multidecoder.decoders.chr.find_chr"], bound="exactness oracle;"))
+
+_UT6 = Tmpl(b"unescape('", (6, "nosq"), b"')")
+
+
+def unescape6(data):
+    arg = list(data[10:16])
+    return exactly(find_unescape, data, 0, len(data), "string", "function.unescape", percent_decode(arg), "find_unescape")
+
+
+_add("unescape_6free", _UT6, unescape6, tier="thorough", timeout=2400, funcs=["multidecoder.decoders.javascript.find_unescape"])
+
+_XT3 = Tmpl(b"&#", (3, "digit"), b";&#", (1, "xX"), 2, b";&#", (2, "digit"), b";&#x4a;&#7;&#", (1, "digit"), b";")
+
+
+def xml_refs_four_symbolic(data):
+    d1 = digits_value(list(data[2:5]))
+    h = list(data[9:11])
+    d2 = digits_value(list(data[14:16]))
+    d3 = digits_value(list(data[29:30]))
+    valid = band(d1 <= 255, is_hex_char(h[0]), is_hex_char(h[1]))
+    if valid:
+        want = [d1, hex_nibble(h[0]) * 16 + hex_nibble(h[1]), d2, 0x4A, 7, d3]
+        return exactly(find_xml_hex, data, 0, len(data), "", "unescape.xml", want, "find_xml_hex")
+    ok, hits = k_contract(find_xml_hex, data, "find_xml_hex")
+    if not ok:
+        return False, True
+    # an invalid first or second reference leaves at most a shorter run: whatever is reported must decode exactly
+    hex_ok = band(is_hex_char(h[0]), is_hex_char(h[1]))
+    floor = 6 if hex_ok else 12  # first reference invalid (> 255): a run may start at the second; second invalid: at the third
+    for hnode in hits:
+        if hnode.start < floor:
+            return hx.fail("find_xml_hex: a run containing an invalid reference was decoded", data=data, hit=hnode), True
+    return True, False
+
+
+_add("xml_refs_four_symbolic", _XT3, xml_refs_four_symbolic, tier="thorough", timeout=2400, funcs=["multidecoder.decoders.xml.find_xml_hex"])
